@@ -7,7 +7,7 @@ from rv.props import common as C
 from rv import oracles as O, gen
 
 LEVEL = "exploration"
-RULE = ("bounded-exhaustive: every multiset of 1..7 (thorough 8) items over 0..4 x bounds {1,2,3,default} (completion reported as grid_exhaustive_complete_shards); then cbldm on n = 1..14 (thorough 16) non-negative integers (zeros, repeats, all-ones, ties, random up to 500), cardinality bound d in {1,2,3,n,default}, list / array / dict / names presentations; "
+RULE = ("bounded-exhaustive: every multiset of 1..7 (thorough 8) items over 0..4 x bounds {1,2,3,default} (completion reported as grid_exhaustive_complete_shards); then cbldm on n = 1..14 (thorough 16) non-negative integers (zeros, repeats, all-ones, ties, random up to 500; 30% of the cases are 8..13 items up to 20..60 with bound 1..3, where a binding bound makes the search matter most), cardinality bound d in {1,2,3,n,default}, list / array / dict / names presentations; "
         "checks: two bins holding every name exactly once, |#A-#B| <= d, |sum A - sum B| equals the optimum under d; non-trivial = constrained optimum differs from the unconstrained one, "
         "or n >= 6 with d = 1; distinct on (d, sorted values)")
 ASSUMPTIONS = ["no time limit", "O4 enumerates achievable subset sums per cardinality"]
@@ -53,6 +53,12 @@ def judge(case, ctx):
 
 
 def draw(rng, nmax):
+    if rng.random() < 0.3:
+        # volume on the region where a binding bound makes the search matter most: 8..13 small-to-medium items, bound 1 (mostly) - pruning rules that are sound for the
+        # unconstrained problem but not under the bound show only here, and rarely
+        n = rng.randint(8, min(13, nmax))
+        vals = [rng.randint(rng.choice([0, 1]), rng.choice([20, 30, 30, 60])) for _ in range(n)]
+        return {"kind": "partition", "alg": "cbldm", "k": 2, "values": vals, "cls": "mid_binding", "cbldm_d": rng.choice([1, 1, 1, 2, 3]), "pres": "list", "pres_seed": 0}
     n = rng.randint(1, nmax) if rng.random() < 0.6 else rng.randint(max(1, nmax - 4), nmax)
     cls = rng.choice(["random", "random", "zeros", "repeats", "ones", "ties", "skewed", "big", "bigties", "bignear", "pool", "pool", "pool"])
     if cls == "pool":
